@@ -195,7 +195,9 @@ impl Property for C09 {
          constant and variable label names drawn from pools mixing valid identifiers with empty, leading digit, ':' in labels, \
          '-', blank, non-ASCII letters and digits (e-acute, sharp s, Cyrillic a, Arabic-Indic 3, full-width A/1, superscript 2, \
          roman numeral, titlecase digraph), `le`, `__name__`, names repeated across the constant and variable sets; then the accepted \
-         metric gets children and is gathered through Registry::new_custom(prefix, common labels) drawn from the same pools. \
+         metric gets children and is gathered through Registry::new_custom(prefix, common labels) drawn from the same pools, in \
+         half of the cases with constant labels together with a second collector of the same kind under the same name (another \
+         constant-label value) so that gather() merges two families. \
          Oracle: independent byte-level recogniser decides Ok/Err; every gathered family/label name must be valid and label names \
          pairwise distinct per sample. Non-trivial: non-ASCII alphanumeric, const/variable clash, `le`, or a malformed/clashing \
          registry prefix or common label. Distinct = hash of decoded choices."
@@ -293,7 +295,7 @@ impl Property for C09 {
             DescOnly,
         }
         let vals: Vec<&str> = vars.iter().map(|_| "val").collect();
-        let made: Result<Made, String> = (|| -> Result<Made, prometheus::Error> {
+        let build = |opts: Opts| -> Result<Made, prometheus::Error> {
             Ok(match ctor {
                 Ctor::Counter => Made::C(Box::new(Counter::with_opts(opts)?), vec![]),
                 Ctor::IntCounter => Made::C(Box::new(IntCounter::with_opts(opts)?), vec![]),
@@ -337,8 +339,8 @@ impl Property for C09 {
                     Made::DescOnly
                 }
             })
-        })()
-        .map_err(|e| e.to_string());
+        };
+        let made: Result<Made, String> = build(opts.clone()).map_err(|e| e.to_string());
 
         let describe = || {
             format!(
@@ -424,6 +426,23 @@ impl Property for C09 {
                     m();
                 }
                 if reg.register(coll).is_ok() {
+                    // a second collector under the same fully-qualified name (same help and label names, another
+                    // constant-label value): its family is merged with the first one's during gather()
+                    if !consts.is_empty() && src.chance(128) {
+                        let mut o2 = Opts::new(name, help).namespace(ns).subsystem(sub);
+                        for (i, (k, v)) in consts.iter().enumerate() {
+                            o2 = o2.const_label(*k, if i == 0 { format!("{}-sibling", v) } else { v.to_string() });
+                        }
+                        if let Ok(Made::C(c2, makers2)) = build(o2) {
+                            for m in &makers2 {
+                                m();
+                            }
+                            if reg.register(c2).is_ok() {
+                                rep.class("sibling-collector-under-the-same-name");
+                                reg_desc.push_str(" +sibling collector (first constant label value + \"-sibling\")");
+                            }
+                        }
+                    }
                     let fams = reg.gather();
                     ensure!(!fams.is_empty(), "gather-empty", "{}{} registered but gather() is empty", describe(), reg_desc);
                     for f in &fams {
